@@ -138,30 +138,107 @@ theorem shr_exact (W : Nat) (hW : 1 ≤ W) (m : TRepr) (n : Nat) (byRef : Bool) 
     (m.shr W n byRef).value W = m.value W / 2 ^ n ∧ (m.shr W n byRef).Canon W :=
   TRepr.shr_spec W hW m n byRef hm
 
-/-- IBig `>>` with the repaired `are_dword_low_bits_nonzero` (clamp to `DWORD_BITS`,
-    proposed_fixes/are_dword_low_bits_nonzero.diff) is floor division by `2^n`, for all inputs. -/
-theorem ibig_shr_floor_fixed (W : Nat) (hW : 1 ≤ W) (a : SRepr) (n : Nat) (byRef : Bool)
+/-- IBig `>>` is floor division by `2^n`, for all inputs (code as it is: `are_dword_low_bits_nonzero`
+    clamps to `DWORD_BITS`, fix commit 94ebcdb). -/
+theorem ibig_shr_floor (W : Nat) (hW : 1 ≤ W) (a : SRepr) (n : Nat) (byRef : Bool)
     (ha : SCanon W a) :
     ibigShr W true a n byRef = (a.value W) / (2 : Int) ^ n :=
   ibigShr_fixed W hW a n byRef ha
 
-/- FULL statement, false for the code as it is on the pinned commit (see the counterexample):
-   theorem ibig_shr_floor_full … : ibigShr W false a n byRef = (a.value W) / 2 ^ n            -/
-
-/-- IBig `>>` of the code AS IS is floor division outside the defect class (`shrDefect`: negative
-    inline value, `n > W`, low word zero, a set bit among bits `W .. min(n,2W)-1`) — the same
-    predicate is the `match` of the known finding. -/
-theorem ibig_shr_floor_partial (W : Nat) (hW : 1 ≤ W) (a : SRepr) (n : Nat) (byRef : Bool)
+/-- The model of the code *as it was* (`fx = false`, clamp to `WORD_BITS`) is floor division exactly
+    outside the class `shrDefect` (negative inline value, `n > W`, low word zero, a set bit among
+    bits `W .. min(n,2W)-1`) … -/
+theorem ibig_shr_asis_outside_defect (W : Nat) (hW : 1 ≤ W) (a : SRepr) (n : Nat) (byRef : Bool)
     (ha : SCanon W a) (hnd : shrDefect W a n = false) :
     ibigShr W false a n byRef = (a.value W) / (2 : Int) ^ n :=
   ibigShr_asis W hW a n byRef ha hnd
 
-/-- the hypothesis is needed: `(-(2^64)) >> 100` is `0` in the code as it is, floor division gives `-1` -/
+/-- … and wrong inside it: `(-(2^64)) >> 100` was `0`, floor division gives `-1`
+    (why fix 94ebcdb was needed; `fx = false` is a separately kept model of the old code). -/
 theorem ibig_shr_asis_counterexample :
     SCanon 64 ⟨true, .small (2 ^ 64)⟩ ∧ shrDefect 64 ⟨true, .small (2 ^ 64)⟩ 100 = true ∧
     ibigShr 64 false ⟨true, .small (2 ^ 64)⟩ 100 = 0 ∧
+    ibigShr 64 true ⟨true, .small (2 ^ 64)⟩ 100 = -1 ∧
     (SRepr.value 64 ⟨true, .small (2 ^ 64)⟩) / (2 : Int) ^ 100 = -1 := by
-  refine ⟨by decide, by decide, by decide, by decide⟩
+  refine ⟨by decide, by decide, by decide, by decide, by decide⟩
+
+-- ================================================================== bit tests and scans
+
+/-- `UBig::bit(n)`: the `n`-th binary digit of the value -/
+theorem ubig_bit (W : Nat) (hW : 1 ≤ W) (m : TRepr) (n : Nat) (hm : m.Canon W) :
+    m.bit W n = (m.value W).testBit n :=
+  TRepr.bit_spec W hW m n hm
+
+/-- `IBig::bit(n)`: the `n`-th two's-complement bit, for every sign (the negative arm is the
+    trailing-zeros trick of `BitTest for IBig`) — and never the `unwrap()` panic -/
+theorem ibig_bit (W : Nat) (hW : 1 ≤ W) (a : SRepr) (n : Nat) (ha : SCanon W a) :
+    ibigBit W a n = .ok (Int.testBit (a.value W) n) := by
+  rw [ibigBit_spec W hW a n ha, specBit_eq_testBit]
+
+/-- `trailing_zeros`: `None` exactly for 0, otherwise the `k` with `2^k ∣ x` and `x / 2^k` odd
+    (unique: `IsTz.unique`); no index panic for canonical values.  `IBig::trailing_zeros` is this
+    function applied to the magnitude (the 2-adic valuation does not depend on the sign). -/
+theorem trailing_zeros (W : Nat) (m : TRepr) (hm : m.Canon W) :
+    (m.value W = 0 → m.trailingZeros W = .ok none) ∧
+    (m.value W ≠ 0 → ∃ k, m.trailingZeros W = .ok (some k) ∧ IsTz (m.value W) k) :=
+  TRepr.trailingZeros_spec W m hm
+
+theorem trailing_count_unique {n k k' : Nat} (h : IsTz n k) (h' : IsTz n k') : k = k' := h.unique h'
+
+/-- `trailing_ones` of a non-negative value `x` (code as it is, fix commit 754b193): the `k` with
+    `2^k ∣ x + 1` and `(x+1) / 2^k` odd, i.e. bits `0..k-1` are ones and bit `k` is zero; never a
+    panic.  Full statement, all lengths. -/
+theorem trailing_ones (W : Nat) (m : TRepr) (hm : m.Canon W) :
+    ∃ k, m.trailingOnes W true = .ok k ∧ IsTz (m.value W + 1) k :=
+  TRepr.trailingOnes_fixed W m hm
+
+/-- the old scan (`fx = false`: start at word index 1) agrees with the current one exactly
+    outside the class `toDefect` … -/
+theorem trailing_ones_asis_outside_defect (W : Nat) (m : TRepr) (hm : m.Canon W)
+    (hnd : toDefect W m = false) : m.trailingOnes W false = m.trailingOnes W true :=
+  TRepr.trailingOnes_asis W m hm hnd
+
+/-- … and was wrong inside it: `2^200 + 0b10111` gave 64 (should be 3), `2^192 - 1` indexed past
+    the end (should be 192) — why fix 754b193 was needed. -/
+theorem trailing_ones_asis_counterexample :
+    (TRepr.large [0b10111, 0, 0, 2 ^ 8]).Canon 64 ∧
+    (TRepr.large [0b10111, 0, 0, 2 ^ 8]).trailingOnes 64 false = .ok 64 ∧
+    (TRepr.large [0b10111, 0, 0, 2 ^ 8]).trailingOnes 64 true = .ok 3 ∧
+    (TRepr.large [2 ^ 64 - 1, 2 ^ 64 - 1, 2 ^ 64 - 1]).Canon 64 ∧
+    (TRepr.large [2 ^ 64 - 1, 2 ^ 64 - 1, 2 ^ 64 - 1]).trailingOnes 64 false = .error oob ∧
+    (TRepr.large [2 ^ 64 - 1, 2 ^ 64 - 1, 2 ^ 64 - 1]).trailingOnes 64 true = .ok 192 := by
+  refine ⟨by decide, by decide, by decide, by decide, by decide, by decide⟩
+
+-- ================================================================== masks and splits
+
+/-- `UBig::ones(n) = 2^n - 1`, canonical for every `n` (code as it is, fix commit 283f2ad) -/
+theorem ones_exact (W : Nat) (hW : 1 ≤ W) (n : Nat) :
+    (reprOnes W true n).value W = 2 ^ n - 1 ∧ (reprOnes W true n).Canon W :=
+  ⟨reprOnes_value W true n, reprOnes_canon_fixed W hW n⟩
+
+/-- the old `Repr::ones` had the right value but a non-canonical form at `n = 2W` (C05/C17) -/
+theorem ones_asis_counterexample :
+    (reprOnes 64 false 128).value 64 = 2 ^ 128 - 1 ∧ ¬ (reprOnes 64 false 128).Canon 64 := by
+  refine ⟨by decide, by decide⟩
+
+/-- `clear_high_bits(n)` keeps exactly the low `n` bits: `x mod 2^n` -/
+theorem clear_high_bits (W : Nat) (hW : 1 ≤ W) (m : TRepr) (n : Nat) (hm : m.Canon W) :
+    (m.clearHighBits W n).value W = m.value W % 2 ^ n ∧ (m.clearHighBits W n).Canon W :=
+  TRepr.clearHighBits_spec W hW m n hm
+
+/-- `split_bits(n) = (x mod 2^n, x div 2^n)` -/
+theorem split_bits (W : Nat) (hW : 1 ≤ W) (m : TRepr) (n : Nat) (hm : m.Canon W) :
+    ((m.splitBits W n).1.value W = m.value W % 2 ^ n ∧ (m.splitBits W n).1.Canon W) ∧
+    ((m.splitBits W n).2.value W = m.value W / 2 ^ n ∧ (m.splitBits W n).2.Canon W) :=
+  TRepr.splitBits_spec W hW m n hm
+
+/-- `bit_len`: 0 for 0, otherwise the `k` with `2^(k-1) ≤ x < 2^k` (`IBig::bit_len` applies it to
+    the magnitude, as `dashu_base::BitTest` documents) -/
+theorem bit_len (W : Nat) (m : TRepr) (hm : m.Canon W) :
+    m.bitLen W = bitLenNat (m.value W) ∧
+    m.value W < 2 ^ bitLenNat (m.value W) ∧
+    (m.value W ≠ 0 → 2 ^ (bitLenNat (m.value W) - 1) ≤ m.value W) :=
+  ⟨TRepr.bitLen_spec W m hm, (bitLenNat_spec _).1, (bitLenNat_spec _).2⟩
 
 -- non-vacuity: a negative 3-word heap operand and a 2-word inline operand are canonical, and the
 -- model computes (−2^130) & (−2^64 − 1) through the (Negative, Negative) arm
